@@ -302,6 +302,106 @@ def run_witness(binpath, w):
             return {"cmd": "check --fix <%d programs>" % len(progs), "exit": 0, "stdout": "", "stderr": "",
                     "reproduced": bool(bad_items), "why": "; ".join(bad_items[:4])[:1800], "n_inputs": len(progs),
                     "failing_inputs": [progs[int(re.match(r"program (\d+)", b).group(1))] for b in bad_items][:6]}
+        elif kind == "session-positions":
+            # C23 bounded stand-in: each source is evaluated in a JSON session and raises a runtime error
+            # at a chosen token; every full Position in the answers (offsets, lines, byte columns) must
+            # lie inside that source, on char boundaries, with line/column equal to those of its offsets
+            srcs = list(w["input"])
+            f = os.path.join(tmpdir, "s.jsonl")
+            with open(f, "w", encoding="utf-8") as fh:
+                for src_ in srcs:
+                    fh.write(json.dumps({"method": "run", "input": src_}) + "\n")
+                    fh.write(json.dumps({"method": "run", "input": ":abort"}) + "\n")
+            try:
+                p = subprocess.run([binpath, "reftest-json-session", f], capture_output=True, text=True, timeout=w.get("timeout", 60), cwd=tmpdir)
+            except subprocess.TimeoutExpired:
+                return {"cmd": "reftest-json-session", "exit": "timeout", "stdout": "", "stderr": "", "reproduced": True, "why": "timeout"}
+            bad_items, failing = [], []
+            if p.returncode == 101 or "panicked at" in p.stderr:
+                bad_items.append("session panicked: " + p.stderr[-200:])
+            answers = [o for o in _jsons(p.stdout) if "evaluate" in o.get("kind", {}) or "run_command" in o.get("kind", {})]
+            evals = [o for o in answers if "evaluate" in o.get("kind", {})]
+            if len(evals) != len(srcs):
+                bad_items.append("%d evaluate answers for %d inputs" % (len(evals), len(srcs)))
+            n_pos = 0
+            for src_, ans in zip(srcs, evals):
+                b = src_.encode("utf-8")
+                found = []
+
+                def walk(node):
+                    if isinstance(node, dict):
+                        if {"start_offset", "end_offset", "line_number", "column"} <= set(node):
+                            found.append(node)
+                        for v in node.values():
+                            walk(v)
+                    elif isinstance(node, list):
+                        for v in node:
+                            walk(v)
+                walk(ans)
+                for pos in found:
+                    if pos.get("path") not in (None, "__user.gdn"):
+                        continue
+                    n_pos += 1
+                    so, eo = pos["start_offset"], pos["end_offset"]
+                    why = None
+                    if not (0 <= so <= eo <= len(b)):
+                        why = "offsets %d..%d outside the text (%d bytes)" % (so, eo, len(b))
+                    else:
+                        for o_ in (so, eo):
+                            if o_ < len(b) and (b[o_] & 0xC0) == 0x80:
+                                why = "offset %d is inside a character" % o_
+                        exp = []
+                        for o_ in (so, eo):
+                            ls = b.rfind(b"\n", 0, o_) + 1
+                            exp.append((b.count(b"\n", 0, o_), o_ - ls))
+                        got = [(pos["line_number"], pos["column"]), (pos.get("end_line_number"), pos.get("end_column"))]
+                        if why is None and got != exp:
+                            why = "offsets %d..%d are line/column %r but the position says %r" % (so, eo, exp, got)
+                    if why:
+                        bad_items.append("%r: %s" % (src_[:60], why))
+                        failing.append(src_)
+            if n_pos < len(srcs) and not bad_items:
+                bad_items.append("only %d positions reported for %d inputs (each input should raise an error with a position)" % (n_pos, len(srcs)))
+            return {"cmd": "reftest-json-session <%d inputs>" % len(srcs), "exit": p.returncode, "stdout": p.stdout[-600:], "stderr": p.stderr[-300:],
+                    "reproduced": bool(bad_items), "why": "; ".join(bad_items[:4])[:1500], "n_inputs": len(srcs), "failing_inputs": failing[:4]}
+        elif kind == "resume-corpus":
+            # C07 bounded stand-in: each item is a list of session inputs ending in a failing step; after it
+            # `:resume` is sent `resumes` times and every answer must carry the same error message and
+            # position as the first failure
+            bad_items, failing = [], []
+            for idx, item in enumerate(w["input"]):
+                f = os.path.join(tmpdir, "r%d.jsonl" % idx)
+                n_res = item.get("resumes", 2)
+                with open(f, "w", encoding="utf-8") as fh:
+                    for req in item["session"]:
+                        fh.write(json.dumps({"method": "run", "input": req}) + "\n")
+                    for _ in range(n_res):
+                        fh.write(json.dumps({"method": "run", "input": ":resume"}) + "\n")
+                try:
+                    p = subprocess.run([binpath, "reftest-json-session", f], capture_output=True, text=True, timeout=w.get("timeout", 30), cwd=tmpdir)
+                except subprocess.TimeoutExpired:
+                    bad_items.append("%s: timeout" % item.get("what", idx))
+                    failing.append(item)
+                    continue
+                if p.returncode == 101 or "panicked at" in p.stderr:
+                    bad_items.append("%s: session panicked: %s" % (item.get("what", idx), p.stderr[-160:]))
+                    failing.append(item)
+                    continue
+                evals = [o["kind"]["evaluate"]["value"] for o in _jsons(p.stdout) if "evaluate" in o.get("kind", {})]
+                tail = evals[-(n_res + 1):]
+                sig = []
+                for v in tail:
+                    if "Err" in v and v["Err"]:
+                        e = v["Err"][0]
+                        pp = e.get("position") or {}
+                        sig.append((e.get("message"), pp.get("start_offset"), pp.get("end_offset")))
+                    else:
+                        sig.append(("no error", str(v)[:80], None))
+                if len(tail) != n_res + 1 or sig[0][0] == "no error" or any(x != sig[0] for x in sig[1:]):
+                    bad_items.append("%s: the failing step gave %r, the resumes gave %r" % (item.get("what", idx), sig[:1], sig[1:]))
+                    failing.append(item)
+            return {"cmd": "reftest-json-session <%d sessions>" % len(w["input"]), "exit": 0, "stdout": "", "stderr": "",
+                    "reproduced": bool(bad_items), "why": "; ".join(bad_items[:4])[:1600], "n_inputs": len(w["input"]), "failing_inputs": failing[:4]}
         elif kind == "rename":
             f = os.path.join(tmpdir, w.get("filename", "w.gdn"))
             with open(f, "w", encoding="utf-8") as fh:
